@@ -142,9 +142,14 @@ def Shedder.maxFlight (s : Shedder) (now : Nat) : Rat :=
 /-- `mathx.Between(x, lo, hi)`. -/
 def between (x lo hi : Rat) : Rat := if x < lo then lo else if x > hi then hi else x
 
-/-- `overloadFactor()` for the CPU reading `cpu`. -/
+/-- `overloadFactor()` for the CPU reading `cpu`.
+`threshold = cpuMax` makes the float64 division a division by zero: `+Inf` for `cpu < cpuMax` (clamped to 1 by
+`Between`), `-Inf` for `cpu > cpuMax` (clamped to the lower bound), and `0/0 = NaN` for `cpu = cpuMax`, which
+the guard `if math.IsNaN(factor) { factor = overloadFactorLowerBound }` (fixes/C02-threshold-at-cpumax-nan.patch)
+replaces by the lower bound; without the guard see `Pinned` in Props.lean. -/
 def overloadFactor (threshold cpu : Int) : Rat :=
-  between (((cpuMax : Rat) - (cpu : Rat)) / ((cpuMax : Rat) - (threshold : Rat))) factorLowerBound 1
+  if threshold = cpuMax then (if cpu < cpuMax then 1 else factorLowerBound)
+  else between (((cpuMax : Rat) - (cpu : Rat)) / ((cpuMax : Rat) - (threshold : Rat))) factorLowerBound 1
 
 /-- the threshold `highThru` compares against: `maxFlight() * overloadFactor()`. -/
 def Shedder.limit (s : Shedder) (now : Nat) (cpu : Int) : Rat :=
